@@ -532,6 +532,24 @@ def run(ctx):
         if gen_ok:
             ctx.broke("tie T validation for Gen_schemas could not be set up", f"{type(e).__name__}: {e}")
 
+    # ---------------- diagnosis by the model: Optional attributes whose field rejects null (why `compatible` is false)
+    if gen_ok:
+        try:
+            pairs = list(facts["class_of"].items())
+            res, _ = runner.eval_terms("C19", IMPORTS, [f"(compatible cls_{c} sch_{s}, missing_allow_none cls_{c} sch_{s})" for s, c in pairs], tag="diag")
+            diag = {}
+            for (s, c), r in zip(pairs, res or []):
+                import re
+
+                names = ["".join(chr(int(x)) for x in m.split(";")) for m in re.findall(r"\[(\d+(?:; ?\d+)*)\]", r)]
+                diag[c] = {"compatible": r.strip().startswith("(true"), "optional_attributes_whose_field_rejects_null": names}
+                if not diag[c]["compatible"]:
+                    ctx.broke(f"model: class {c} is not compatible with {s} (C19_compatible_{c} cannot hold)",
+                              "Optional attributes whose field rejects null: " + (", ".join(names) or "none at the top level (a nested schema is incompatible)"))
+            ctx.notes["compatibility"] = diag
+        except Exception as e:  # pylint: disable=broad-except
+            ctx.notes["compatibility"] = f"not evaluated: {type(e).__name__}: {e}"
+
     # ---------------- instances
     insts = list(witnesses(ns))
     n_wit = len(insts)
